@@ -126,7 +126,7 @@ LitText(e) ==
 Prec(op) == CASE op \in {"+", "-"} -> 1 [] op \in {"*", "/"} -> 2 [] op \in {"<<", ">>"} -> 3
 PrecOf(e) == IF e.k = "bin" THEN Prec(e.op) ELSE IF e.k = "neg" THEN 4 ELSE 5
 
-RECURSIVE Full(_), Min(_)
+RECURSIVE Full(_), MinSp(_, _)
 Full(e) ==
     CASE e.k \in {"lit", "big"} -> LitText(e)
       [] e.k = "name" -> "K" \o ToString(e.v)
@@ -134,16 +134,20 @@ Full(e) ==
       [] OTHER -> "(" \o Full(e.l[1]) \o " " \o e.op \o " " \o Full(e.r[1]) \o ")"
 
 Paren(s) == "(" \o s \o ")"
-Min(e) ==
+MinSp(e, sp) ==
     CASE e.k \in {"lit", "big"} -> LitText(e)
       [] e.k = "name" -> "K" \o ToString(e.v)
-      [] e.k = "neg" -> "-" \o (IF PrecOf(e.l[1]) < 4 THEN Paren(Min(e.l[1])) ELSE Min(e.l[1]))
+      [] e.k = "neg" -> "-" \o (IF PrecOf(e.l[1]) < 4 THEN Paren(MinSp(e.l[1], sp)) ELSE MinSp(e.l[1], sp))
       [] OTHER ->
             \* left operand: parenthesise if it binds weaker; right operand:
             \* parenthesise if it does not bind stronger (left associativity)
-            (IF PrecOf(e.l[1]) < Prec(e.op) THEN Paren(Min(e.l[1])) ELSE Min(e.l[1]))
-            \o " " \o e.op \o " " \o
-            (IF PrecOf(e.r[1]) <= Prec(e.op) THEN Paren(Min(e.r[1])) ELSE Min(e.r[1]))
+            (IF PrecOf(e.l[1]) < Prec(e.op) THEN Paren(MinSp(e.l[1], sp)) ELSE MinSp(e.l[1], sp))
+            \o sp \o e.op \o sp \o
+            (IF PrecOf(e.r[1]) <= Prec(e.op) THEN Paren(MinSp(e.r[1], sp)) ELSE MinSp(e.r[1], sp))
+
+\* the minimal text with blanks around binary operators, and without any blank (A-1, 1<<K1*2)
+Min(e) == MinSp(e, " ")
+MinTight(e) == MinSp(e, "")
 
 \* isar spelling: "<<" written as the operator call shiftLeft(a, b) (which the
 \* isar front-end expands to ((a) << (b))), everything else fully parenthesised
@@ -168,5 +172,5 @@ ESpec == EInit /\ [][UNCHANGED ast]_ast
 ValueSmall == Eval(ast) \in -100000000..100000000
 
 EDump == PrintT("EXPR " \o ToJson([min |-> Min(ast), full |-> Full(ast), value |-> Eval(ast),
-                                    isar |-> IF HasShl(ast) THEN Isar(ast) ELSE "", names |-> NameVals]))
+                                    isar |-> IF HasShl(ast) THEN Isar(ast) ELSE "", tight |-> MinTight(ast), names |-> NameVals]))
 =============================================================================
